@@ -247,7 +247,7 @@ def _maps(d):
                     G2[1, 1], G2[1, 2], G2[2, 1], G2[2, 2] = c, -s, s, c
                     R = G @ G2
             D = np.diag(np.logspace(0, math.log10(cond), d)) if d > 1 else np.array([[cond]])
-            for scale in (1.0, 1e-3):
+            for scale in (1.0, 1e-3) + ((1e-60, 1e60, 1e-150) if (cond in (1.0, 1e3) and ang == 0.3) else ()):  # uniform rescaling to extreme units keeps the condition number
                 out.append((cond, R @ D * scale))
             if d == 1 or ang != 0.0:
                 pass
@@ -282,7 +282,8 @@ def run_volume(case):
                 if abs(vc - base) > 1e-9 * max(1.0, base):
                     res.violate("vv:weight-scale", f"volume_variation changes under weight rescaling by {c}: {base!r} -> {vc!r}", dict(cc, c=c))
         for cond, A in _maps(d):
-            for b in (0.0, 1e3):
+            unit = float(np.abs(A).max())
+            for b in (0.0, 1e3 if 1e-4 < unit < 1e7 else 1e3 * unit):  # a translation the doubles can carry next to the spread of the data
                 y = x @ A.T + b
                 ok2, why2 = _premise(y, wv.copy())
                 if not ok2:
@@ -369,7 +370,117 @@ def run_callsites(case):
     return res
 
 
-KINDS = {"session": run_session20, "callsites": run_callsites, "ess": run_ess, "trim": run_trim, "long": run_long, "volume": run_volume}
+# ------------------------------------------------------------------------------------- input forms and call history
+FALPHA = [0.0, 0.25, 1.0, 3.0, 1024.0]
+FORMS_W = {"ess": ("strided", "revstrided", "readonly", "f32", "f16", "i64", "i32", "longdouble"),
+           "trim": ("strided", "revstrided", "f32", "longdouble"),
+           "vvw": ("list", "tuple", "strided", "revstrided", "readonly", "f32", "i64", "i32"),
+           "vvx": ("list", "tuple", "strided", "revstrided", "fortran", "readonly", "f32", "i64", "i32")}
+
+
+def _bits(r):
+    return tuple(np.asarray(t, dtype=float).tobytes() + str(np.shape(t)).encode() for t in (r if isinstance(r, tuple) else (r,)))
+
+
+def run_forms(case):
+    """The same numbers presented as another legal container / dtype / memory layout must give the same answer, and a call repeated after
+    a call with other arguments must give bit-identical results (no state carried between calls)."""
+    from mc import forms as fm
+    from tempest.tools import effective_sample_size, compute_ess, increment_logz, trim_weights, volume_variation
+
+    res = Res()
+    fn = case["fn"]
+    seqs = [tuple(s) for s in case["seq"]] if case.get("seq") else None
+    vecs = seqs if seqs else [v for L in case["lens"] for v in itertools.product(FALPHA, repeat=L) if sum(v) > 0]
+    only_form = case.get("form")
+    prev = None
+    x = _points(10, 2) if fn in ("vvw", "vvx") else None
+    xq = np.round(x * 64) / 64 if x is not None else None  # exactly representable in float32/float16 is not needed for x: tolerance oracle
+
+    held = []  # raw objects returned by the library (a caller may keep them while making further calls)
+
+    def call(w, kind):
+        """returns a tuple of arrays / floats for (fn, w) with w presented as `kind`"""
+        wa = np.array(w, dtype=float)
+        with np.errstate(all="ignore"):
+            if fn == "ess":
+                out = [float(effective_sample_size(fm.form(wa, kind)))]
+                if np.all(wa > 0) and np.all(np.log2(wa) == np.round(np.log2(wa))):
+                    lw = fm.form(np.log2(wa), kind)  # integral log-weights: exact in every dtype (-2 and 10 fit float16)
+                    out += [float(compute_ess(lw)), float(increment_logz(lw))]
+                return tuple(out)
+            if fn == "trim":
+                so, wo = trim_weights(np.arange(len(wa)), fm.form(wa, kind), ess=case["ess"], bins=case["bins"])
+                held.append((so, wo))
+                return (np.array(so, dtype=float), np.array(wo, dtype=float))
+            if fn == "vvw":
+                if len(wa) != len(xq):
+                    wa = np.resize(wa, len(xq))
+                return (float(volume_variation(xq.copy(), fm.form(wa, kind))),)
+            if fn == "vvx":
+                k = int(sum(wa)) % 7 + 1
+                xs = np.round(xq * k)
+                xs[:, 1] += np.arange(len(xs)) % 3  # integer-valued, non-degenerate point set depending on w
+                return (float(volume_variation(fm.form(xs, kind), None)),)
+        raise KeyError(fn)
+
+    for w in vecs:
+        if fn in ("vvw",) and (len(w) < 3 or np.count_nonzero(np.resize(np.array(w), 10)) < 4):
+            continue
+        cc0 = {"kind": "forms", "fn": fn, "seq": [list(w)], "ess": case.get("ess"), "bins": case.get("bins")}
+        try:
+            del held[:]
+            ref = call(w, "f64")
+        except Exception as e:
+            res.violate(f"forms:{fn}:raises:{type(e).__name__}", f"{fn} raised {e!r} for contiguous float64 input {list(w)}", cc0)
+            continue
+        mine = held[-1] if held else None
+        mine_bits = _bits(mine) if mine is not None else None
+        res.evals += 1
+        if fn == "ess" and abs(F(ref[0]) - ess_exact(w)) > ess_exact(w) * F(1, 10 ** 9):
+            res.violate("forms:ess:value", f"effective_sample_size({list(w)}) = {ref[0]!r}", cc0)
+        for kind in FORMS_W[fn]:
+            if only_form and kind != only_form:
+                continue
+            probe = fm.form(np.array(w, dtype=float), kind)
+            if probe is None:
+                continue
+            cc = dict(cc0, form=kind)
+            try:
+                got = call(w, kind)
+            except Exception as e:
+                res.violate(f"forms:{fn}:{kind}:raises:{type(e).__name__}", f"{fn} raised {e!r} when {list(w)} is passed as {kind} (fine as contiguous float64)", cc)
+                continue
+            res.evals += 1
+            rtol = {"f32": 2e-6, "f16": 4e-3}.get(kind, 1e-12) * (10.0 if fn.startswith("vv") else 1.0)
+            bad = len(got) != len(ref) or any(not fm.same(g, r, rtol=rtol, atol=rtol * 1e-3) for g, r in zip(got, ref))
+            res.outcome((fn, kind, w), nontrivial=len(set(w)) > 1)
+            if bad:
+                res.violate(f"forms:{fn}:{kind}", f"{fn} gives {[np.asarray(g).tolist() for g in got]} when {list(w)} is passed as {kind}, "
+                            f"but {[np.asarray(r).tolist() for r in ref]} as contiguous float64 (rtol {rtol:g})", cc)
+        # call history: the previous input again, after this one
+        if prev is not None:
+            pw, pref = prev
+            try:
+                again = call(pw, "f64")
+            except Exception as e:
+                again = ("raised", repr(e))
+            res.evals += 1
+            res.trans += 1
+            if _bits(again) != _bits(pref):
+                res.violate(f"history:{fn}", f"{fn}({list(pw)}) returned {[np.asarray(r).tolist() for r in pref]} first and "
+                            f"{[np.asarray(r).tolist() if not isinstance(r, str) else r for r in again]} after an intervening call with {list(w)}",
+                            {"kind": "forms", "fn": fn, "seq": [list(pw), list(w)], "form": "f64", "ess": case.get("ess"), "bins": case.get("bins")})
+            if mine is not None and _bits(mine) != mine_bits:
+                res.violate(f"history:{fn}:earlier-result-changed", f"the arrays returned by {fn}({list(w)}) changed while later calls ({list(pw)} and other forms of the same input) were made: "
+                            f"now {[np.asarray(t).tolist() for t in mine]}, at return {[np.asarray(r).tolist() for r in ref]}",
+                            {"kind": "forms", "fn": fn, "seq": [list(pw), list(w)], "form": "f64", "ess": case.get("ess"), "bins": case.get("bins")})
+        prev = (w, ref)
+    res.states += 1
+    return res
+
+
+KINDS = {"forms": run_forms, "session": run_session20, "callsites": run_callsites, "ess": run_ess, "trim": run_trim, "long": run_long, "volume": run_volume}
 
 
 def plan(ctx):
@@ -397,6 +508,10 @@ def plan(ctx):
     ctx.explore("trim-contract", tr)
     vol = [{"kind": "volume", "d": d, "n": n} for d in (1, 2, 3, 5) for n in (d + 2, 10, 50) + ((400,) if th else ())]
     ctx.explore("volume-metric", vol)
+    fcs = [{"kind": "forms", "fn": "ess", "lens": [L]} for L in (1, 2, 3, 4)]
+    fcs += [{"kind": "forms", "fn": "trim", "lens": [L], "ess": e, "bins": b} for L in (1, 2, 3, 4) for e in (0.5, 0.99) for b in (2, 10)]
+    fcs += [{"kind": "forms", "fn": f, "lens": [3, 4] if f == "vvw" else [1, 2, 3]} for f in ("vvw", "vvx")]
+    ctx.explore("input-forms-and-call-history", fcs)
     scfg = dict(n_particles=8, d=1, ess_ratio=1.0, n_total=10 ** 6, eval="scalar", clustering=False)
     ses = [{"kind": "session", "cfg": scfg, "base": ctx.seed, "depth": 9, "patterns": [sh, 4]} for sh in range(4)]
     ses += [{"kind": "callsites", "cfg": dict(clustering=cl, cluster_every=ce, sample=k, target=t, n_particles=24, n_total=96), "base": ctx.seed}
